@@ -83,7 +83,9 @@ func inRender(sc inScenario) string {
 			if t == a {
 				tgt = "."
 			}
-			switch i % 4 {
+			// the statement around a call is a surface choice: bare, inside blocks of every kind, after a return in the
+			// same block (a return declares a response, it ends nothing), in an else branch
+			switch (i + sc.ID) % 8 {
 			case 0:
 				fmt.Fprintf(&b, "        %s <- e\n", tgt)
 			case 1:
@@ -92,6 +94,14 @@ func inRender(sc inScenario) string {
 				fmt.Fprintf(&b, "        for each x in xs:\n            one of:\n                first:\n                    %s <- e\n                second:\n                    skip it\n", tgt)
 			case 3:
 				fmt.Fprintf(&b, "        until done:\n            grouped work:\n                %s <- e\n", tgt)
+			case 4:
+				fmt.Fprintf(&b, "        return ok\n        %s <- e\n", tgt)
+			case 5:
+				fmt.Fprintf(&b, "        if ready:\n            return ok <: string\n            %s <- e\n", tgt)
+			case 6:
+				fmt.Fprintf(&b, "        if ready:\n            do it\n        else:\n            %s <- e\n", tgt)
+			case 7:
+				fmt.Fprintf(&b, "        while busy:\n            %s <- e\n            return done\n", tgt)
 			}
 		}
 		b.WriteString("\n")
